@@ -327,3 +327,4 @@ func arrayLen(v ssa.Value) int64 {
 }
 
 func avInt(a an.AV) int64 { return an.Env{"x": a}.I("x") }
+func avStr(a an.AV) string { return an.Env{"x": a}.S("x") }
